@@ -12,17 +12,18 @@ OTOP = f'{OS}[-1]'
 SAME = f'{S} == {OS}'
 GROW = f'len({S}) >= len({OS})'
 FRESH = f'spec_fresh({OTOP})'
-REQ = [f'len({S}) >= 1', f'spec_same_text({S}[-1], {S}[-1])']
+REQ = [f'len({S}) >= 1']
 BODY = {'body': 'func:PARSE'}
 
 
 def register(reg):
     register2(reg)
+    register3(reg)
     # -- cut: sets the flag on the TOP frame only (C05)
     contract(reg, f'{K}:ParserCore.statescope', ALL, {'self': 'Ctx', 'merge': 'bool'}, ret='None', requires=REQ, ghost=BODY,
              ensures=[('property', f'out_ok(body, {FRESH})'),
                       ('property', f'implies(merge, {S} == {OS}[:-1] + [spec_merged({OTOP}, out_frame(body, {FRESH}))])'),
-                      ('property', f'implies(not merge, {S} == {OS}[:-1] + [spec_at({OTOP}, out_frame(body, {FRESH}).cursor.pos)])')],
+                      ('property', f'implies(not merge, {S} == {OS}[:-1] + [spec_goto({OTOP}, out_frame(body, {FRESH}).cursor.pos)])')],
              raises={'FailedParse': [f'not out_ok(body, {FRESH})', SAME]}, propagates=[GROW])
     contract(reg, f'{X}:ParseContext.optional', ALL, {'self': 'Ctx'}, ret='None', requires=REQ, ghost=BODY,
              ensures=[('property', f'implies(out_ok(body, {FRESH}), {S} == {OS}[:-1] + [spec_merged({OTOP}, out_frame(body, {FRESH}))])'),
@@ -40,7 +41,7 @@ def register(reg):
              raises={'FailedParse': [f'out_ok(body, {FRESH})', SAME]}, propagates=[GROW])
     contract(reg, f'{X}:ParseContext.skipgroup', ALL, {'self': 'Ctx'}, ret='None', requires=REQ, ghost=BODY,
              ensures=[('property', f'out_ok(body, {FRESH})'),
-                      ('property', f'{S} == {OS}[:-1] + [spec_at({OTOP}, out_frame(body, {FRESH}).cursor.pos)]')],
+                      ('property', f'{S} == {OS}[:-1] + [spec_goto({OTOP}, out_frame(body, {FRESH}).cursor.pos)]')],
              raises={'FailedParse': [f'not out_ok(body, {FRESH})', SAME]}, propagates=[GROW])
     contract(reg, f'{X}:ParseContext.group', ALL, {'self': 'Ctx'}, ret='None', requires=REQ, ghost=BODY,
              ensures=[('property', f'out_ok(body, {OTOP})'), ('property', f'{S} == {OS}[:-1] + [out_frame(body, {OTOP})]')],
@@ -57,9 +58,6 @@ def register2(reg):
             ensures=[('property', ok), ('property', f'{S} == {OS}[:-1] + [{frame_ok}]'), ('property', result_ok)],
             raises={'FailedParse': [f'not ({ok})', f'{S} == {OS}[:-1] + [{frame_fail}]']})
 
-    contract(reg, f'{K}:ParserCore.cut#noprune', ALL, {'self': 'Ctx'}, ret='None',
-             requires=REQ + ['not self._active_config.prune_memos_on_cut'],
-             ensures=[('property', f'{S} == {OS}[:-1] + [spec_with_cut({OTOP})]')])
     contract(reg, f'{K}:ParserCore.next_token', ALL + ['C09'], {'self': 'Ctx', 'ri': 'None'}, ret='None', requires=REQ,
              defaults={'ri': None},
              ensures=[('property', f'{S} == {OS}[:-1] + [spec_at({OTOP}, {WS})]'), f'{WS} >= {OTOP}.cursor.pos', f'{WS} <= {OTOP}.cursor.len'])
@@ -103,10 +101,37 @@ def register2(reg):
     F = f'out_frame(exp, {FRESH})'
     FF = f'out_fail_frame(exp, {FRESH})'
     contract(reg, f'{X}:ParseContext.isolate', ALL, {'self': 'Ctx', 'exp': 'func:PARSE'}, ret='Val', requires=REQ,
-             ensures=[('property', f'out_ok(exp, {FRESH})'),
-                      ('property', f'{S} == {OS}[:-1] + [spec_with_ast(spec_at({OTOP}, {F}.cursor.pos), {F}.ast)]'),
-                      ('property', f'result == spec_cstfinal({F}.cst)')],
-             raises={'FailedParse': [f'not out_ok(exp, {FRESH})', f'len({S}) == len({OS})', f'{S}[:-1] == {OS}[:-1]',
+             ensures=[('property', f'{S} == {OS}[:-1] + [spec_with_ast(spec_goto({OTOP}, {F}.cursor.pos), {F}.ast)]'),
+                      ('property', f'out_ok(exp, {FRESH})'),
+                      ('property', f'result == spec_cstfinal({F}.cst)'), f'spec_same_text({OTOP}, {TOP})'],
+             raises={'FailedParse': [f'top_only({S}, {OS})', f'not out_ok(exp, {FRESH})',
                                      f'spec_same_text({OTOP}, {TOP})',
                                      f'{TOP}.cutseen == ({OTOP}.cutseen or out_cut(exp, {FRESH}))']},
              propagates=[GROW])
+
+
+def register3(reg):
+    TOP = f'{S}[-1]'
+    SHAPE = [f'top_only({S}, {OS})', f'spec_same_text({OTOP}, {TOP})']
+    contract(reg, 'tatsu/util/misc.py:prune_dict', ['C04', 'C05'], {'d': 'MemoD', 'predicate': 'any'}, ret='None', verify=False,
+             modifies=['d'], note='removes the entries the predicate selects; C04 checks the selection in a bounded run')
+    contract(reg, f'{K}:ParserCore.cut', ALL, {'self': 'Ctx'}, ret='None', requires=REQ,
+             ensures=[('property', f'{S} == {OS}[:-1] + [spec_with_cut({OTOP})]')])
+    for variant, pfx in (('', 'func:PARSE'), ('#nosep', 'None')):
+        contract(reg, f'{X}:ParseContext.repeat{variant}', ALL,
+                 {'self': 'Ctx', 'exp': 'func:PARSE', 'prefix': pfx, 'omitsep': 'bool'}, ret='None',
+                 requires=REQ + [f'spec_islist({TOP}.cst)'], defaults={'prefix': None, 'omitsep': False},
+                 invariants={0: SHAPE + [f'{TOP}.cutseen == {OTOP}.cutseen', f'spec_islist({TOP}.cst)']},
+                 ensures=[*SHAPE, ('property', f'{TOP}.cutseen == {OTOP}.cutseen'), f'spec_islist({TOP}.cst)'],
+                 raises={'FailedParse': [f'top_only({S}, {OS})', f'spec_same_text({OTOP}, {TOP})',
+                                         ('property', f'{TOP}.cutseen')]},
+                 propagates=[GROW])
+    for fn in ('closure', 'positive_closure'):
+        for variant, pfx in (('', 'func:PARSE'), ('#nosep', 'None')):
+            contract(reg, f'{X}:ParseContext.{fn}{variant}', ALL,
+                     {'self': 'Ctx', 'exp': 'func:PARSE', 'sep': pfx, 'omitsep': 'bool'}, ret='Val',
+                     requires=REQ, defaults={'sep': None, 'omitsep': False},
+                     ensures=[*SHAPE, ('property', 'isinstance(result, closedlist)'),
+                              ('property', f'{TOP}.cst == spec_cstmerge({OTOP}.cst, result)'),
+                              ('property', f'{TOP}.cutseen == {OTOP}.cutseen')],
+                     raises={'FailedParse': [SAME]}, propagates=[GROW])
